@@ -13,7 +13,18 @@ func annEncodeFns(w *World) []*ssa.Function {
 			for _, fn := range w.Funcs {
 				if fn.Signature.Recv() != nil && types.Identical(fn.Signature.Recv().Type(), k.IndexT) && fn.Signature.Results().Len() == 1 && fn.Signature.Params().Len() == 1 {
 					if s := fn.Signature.Results().At(0).Type().String(); s == "[]uint8" {
-						out = append(out, fn)
+						// the encoder and the same-receiver helpers it delegates the codeword search to
+						for _, g := range sameRecvCallees(w, fn, 2) {
+							dup := false
+							for _, o := range out {
+								if o == g {
+									dup = true
+								}
+							}
+							if !dup {
+								out = append(out, g)
+							}
+						}
 					}
 				}
 			}
